@@ -276,12 +276,24 @@ package pfcp
 //@     assert [seid]     arg0 == s.LocalID && arg1 == req
 //@     assert [recorded] val(req.URRID()) in s.URRIDs
 
+// urrKeeps(s, u): the stored measurement method and information of URR u are what they were on entry (C10: they select
+// the measurement IEs of every later usage report).  An Update URR changes them only for the addressed URR and only when
+// it carries the corresponding child IE.
+//@ pred urrKeeps(s *Sess, u uint32) = s.URRIDs[u].DURAT == old(s.URRIDs[u].DURAT) && s.URRIDs[u].VOLUM == old(s.URRIDs[u].VOLUM) && s.URRIDs[u].EVENT == old(s.URRIDs[u].EVENT) &&
+//@      s.URRIDs[u].MBQE == old(s.URRIDs[u].MBQE) && s.URRIDs[u].INAM == old(s.URRIDs[u].INAM) && s.URRIDs[u].RADI == old(s.URRIDs[u].RADI) &&
+//@      s.URRIDs[u].ISTM == old(s.URRIDs[u].ISTM) && s.URRIDs[u].MNOP == old(s.URRIDs[u].MNOP)
 //@ func (s *Sess) UpdateURR(req *ie.IE) (usars []report.USAReport, err error)
 //@   requires sessOK(s) && ieWF(req)
 //@   ensures [seqn]  forall u uint32 :: u in s.URRIDs ==> s.URRIDs[u].SEQN == old(s.URRIDs[u].SEQN) && s.URRIDs[u].refPdrNum == old(s.URRIDs[u].refPdrNum)
 //@   ensures [ok]    sessOK(s)
 //@   ensures [frameok]  forall t *Sess :: old(allocated(t)) && old(sessOK(t)) && t != s && t.LocalID != s.LocalID ==> sessOK(t)
 //@   ensures [node]  old(s.rnode.local != nil && nodeInv(s.rnode.local) && inSlot(s.rnode.local, s)) ==> nodeInv(s.rnode.local)
+//@   ensures [others] forall u uint32 :: u in s.URRIDs && !(ok(req.URRID()) && u == val(req.URRID())) ==> urrKeeps(s, u)
+//@   ensures [keepm] (forall j int :: 0 <= j && j < len(req.ChildIEs) ==> req.ChildIEs[j].Type != ie.MeasurementMethod) ==>
+//@                     (forall u uint32 :: u in s.URRIDs ==> s.URRIDs[u].DURAT == old(s.URRIDs[u].DURAT) && s.URRIDs[u].VOLUM == old(s.URRIDs[u].VOLUM) && s.URRIDs[u].EVENT == old(s.URRIDs[u].EVENT))
+//@   ensures [keepi] (forall j int :: 0 <= j && j < len(req.ChildIEs) ==> req.ChildIEs[j].Type != ie.MeasurementInformation) ==>
+//@                     (forall u uint32 :: u in s.URRIDs ==> s.URRIDs[u].MBQE == old(s.URRIDs[u].MBQE) && s.URRIDs[u].INAM == old(s.URRIDs[u].INAM) && s.URRIDs[u].RADI == old(s.URRIDs[u].RADI) &&
+//@                        s.URRIDs[u].ISTM == old(s.URRIDs[u].ISTM) && s.URRIDs[u].MNOP == old(s.URRIDs[u].MNOP))
 //@   modifies s.URRIDs[_].DURAT, s.URRIDs[_].VOLUM, s.URRIDs[_].EVENT, s.URRIDs[_].MBQE, s.URRIDs[_].INAM, s.URRIDs[_].RADI, s.URRIDs[_].ISTM, s.URRIDs[_].MNOP
 //@   reveal sessOK
 //@   reveal nodeInv allSessOK dpLive lnodeWF
@@ -289,7 +301,11 @@ package pfcp
 //@   serves C01 C05 C07 C11 C12 C10
 //@   loop range(req.ChildIEs):
 //@     modifies s.URRIDs[_].DURAT, s.URRIDs[_].VOLUM, s.URRIDs[_].EVENT, s.URRIDs[_].MBQE, s.URRIDs[_].INAM, s.URRIDs[_].RADI, s.URRIDs[_].ISTM, s.URRIDs[_].MNOP
-//@     invariant true
+//@     invariant [others] forall u uint32 :: u in s.URRIDs && u != id ==> urrKeeps(s, u)
+//@     invariant [keepm] (forall j int :: 0 <= j && j < idx ==> req.ChildIEs[j].Type != ie.MeasurementMethod) ==>
+//@                     (urrInfo.DURAT == old(urrInfo.DURAT) && urrInfo.VOLUM == old(urrInfo.VOLUM) && urrInfo.EVENT == old(urrInfo.EVENT))
+//@     invariant [keepi] (forall j int :: 0 <= j && j < idx ==> req.ChildIEs[j].Type != ie.MeasurementInformation) ==>
+//@                     (urrInfo.MBQE == old(urrInfo.MBQE) && urrInfo.INAM == old(urrInfo.INAM) && urrInfo.RADI == old(urrInfo.RADI) && urrInfo.ISTM == old(urrInfo.ISTM) && urrInfo.MNOP == old(urrInfo.MNOP))
 //@   at call UpdateURR:
 //@     assert [seid] arg0 == s.LocalID && arg1 == req
 
